@@ -90,7 +90,7 @@ func stringNonEmptyTests(fn *ssa.Function, owner string) map[ssa.Value]ssax.AV {
 }
 
 func c07(c *core.Ctx) {
-	c.Explain("C07 (retained messages): decided statically — R1 in the PUBLISH path the retained store is touched only under the RETAIN flag, AddOrReplace is unreachable for an empty payload and Remove for a non-empty one, both arms are keyed by the same (resolved) topic, and the store receives a private copy; R2 retained replay in subscribeHandler is unreachable for a shared subscription and for a failed one, and the gate does not depend on a previous topic of the same SUBSCRIBE (no loop-carried state); R3 the replayed QoS is min(stored, granted); R4 the replay path does not clear the RETAIN flag; R5 the retained store's read API returns copies.")
+	c.Explain("C07 (retained messages): decided statically — R1 in the PUBLISH path the retained store is touched only under the RETAIN flag, AddOrReplace is unreachable for an empty payload and Remove for a non-empty one, both arms are keyed by the same (resolved) topic, and the store receives a private copy; R2 retained replay in subscribeHandler is unreachable for a shared subscription and for a failed one, and the gate does not depend on a previous topic of the same SUBSCRIBE (no loop-carried state); R3 the replayed QoS is min(stored, granted); R4 the replay path does not clear the RETAIN flag; R5 the retained store's read API returns copies. Added in the second round: The Retain Handling table (RH 0 always, RH 1 only new, RH 2 never) is decided for its six combinations by constant propagation through the gate; R6 a node of the retained trie is unlinked only without children and without a message of its own, and an upward prune changes its key with the node.")
 	c.NotDecided("which retained topics match a filter (the matching walk of the retained trie), histories")
 	p := c.P
 	fl := ssax.NewFlow()
